@@ -353,7 +353,7 @@ def _cuckoo_run(ctx, rng, case, failing):
         cfg.capacity = rng.choice([1, 2, 2, 3, 4])
         cfg.bucket_size = rng.choice([1, 1, 2])
         cfg.max_swaps = rng.choice([1, 1, 2])
-    keys = ck.gen_keys(rng, cfg, rng.randint(3, 10) if not failing else rng.randint(5, 14))
+    keys = ck.with_zero_fp_keys(ctx, rng, cfg, ck.gen_keys(rng, cfg, rng.randint(3, 10) if not failing else rng.randint(5, 14)), p=0.12)
     if len(keys) < 2:
         return
     ops = []
